@@ -22,6 +22,7 @@ static C04: checks::book::C04 = checks::book::C04;
 static C06: checks::c06::C06 = checks::c06::C06;
 static C08: checks::c08::C08 = checks::c08::C08;
 static C09: checks::c09::C09 = checks::c09::C09;
+static C10: checks::c10::C10 = checks::c10::C10;
 static C11: checks::c11::C11 = checks::c11::C11;
 static C12: checks::c12::C12 = checks::c12::C12;
 static C13: checks::c13::C13 = checks::c13::C13;
@@ -29,7 +30,7 @@ static C13: checks::c13::C13 = checks::c13::C13;
 static C14: checks::c14::C14 = checks::c14::C14;
 
 fn registry() -> Vec<&'static dyn DynCheck> {
-    vec![&C01, &C02, &C03, &C04, &C06, &C08, &C09, &C11, &C12, &C13, &C14]
+    vec![&C01, &C02, &C03, &C04, &C06, &C08, &C09, &C10, &C11, &C12, &C13, &C14]
 }
 
 fn find(id: &str) -> &'static dyn DynCheck {
@@ -82,6 +83,10 @@ fn main() {
         }
         "server" => {
             driver::server_main(find(&args[1]));
+            0
+        }
+        "oneshot" => {
+            exec::oneshot_main();
             0
         }
         "replay" => driver::replay(&registry(), &args[1]),
